@@ -10,7 +10,8 @@ Fixpoint list_eqb {A} (e : A -> A -> bool) (a b : list A) : bool :=
 
 (* observation of one model: term ids (sharing graph, ids in first-created order), current knots source per term,
    fitted data id (0 = unfitted), knots sources at fit time, "prediction equals that of a fresh model fitted on the same data" *)
-Record mobs := mkObs { o_ids : list nat; o_knots : list (option nat); o_data : nat; o_fresh_equal : bool }.
+(* o_fresh_equal = None: not compared (the implementation's fit or the fresh fit did not report convergence) *)
+Record mobs := mkObs { o_ids : list nat; o_knots : list (option nat); o_data : nat; o_fresh_equal : option bool }.
 
 (* a LinearTerm's edge_knots_ do not enter its column: masked for the "equals a fresh fit" flag *)
 Fixpoint mask (h : heap) (d : nat) (ids : list nat) (l : list (option nat)) : list (option nat) :=
@@ -23,16 +24,16 @@ Definition model_obs (h : heap) (m : nat) : mobs :=
   let mo := get_m h m in
   let cur := knots_of (h_terms h) (m_terms mo) in
   match m_fit mo with
-  | None => mkObs (m_terms mo) cur 0 false
-  | Some (d, kn) => mkObs (m_terms mo) cur d
+  | None => mkObs (m_terms mo) cur 0 (Some false)
+  | Some (d, kn) => mkObs (m_terms mo) cur d (Some
                       (list_eqb onat_eqb (mask h d (m_terms mo) kn)
                                  (mask h d (m_terms mo) (match fresh_fit h d (m_terms mo) with Some (_, l) => l | None => [] end)) &&
-                       list_eqb onat_eqb (mask h d (m_terms mo) cur) (mask h d (m_terms mo) kn))
+                       list_eqb onat_eqb (mask h d (m_terms mo) cur) (mask h d (m_terms mo) kn)))
   end.
 
 Definition mobs_eqb (a b : mobs) : bool :=
   list_eqb Nat.eqb (o_ids a) (o_ids b) && list_eqb onat_eqb (o_knots a) (o_knots b) && Nat.eqb (o_data a) (o_data b) &&
-  Bool.eqb (o_fresh_equal a) (o_fresh_equal b).
+  match o_fresh_equal a, o_fresh_equal b with Some x, Some y => Bool.eqb x y | _, _ => true end.
 
 Inductive c15case := CHist (ops : list op) (observed : list mobs).    (* observation of every model after the history *)
 
